@@ -239,6 +239,9 @@ class ScreenScheduler():
                     self.redraw()
                 return
 
+        # signals from this screen have to be processed by the loop where it is shown
+        self._event_loop.register_signal_source(top_screen.ui_screen)
+
         # get the widget tree from the screen and show it in the screen
         try:
             # refresh screen content
